@@ -5,6 +5,8 @@ line `{"engine": ..., ...}`, one response per output line: `{"ok": {...}}` or
 -/
 import ZenoModel.Driver.SeqEngine
 import ZenoModel.Driver.StoreEngine
+import ZenoModel.Driver.CoalesceEngine
+import ZenoModel.Driver.QueryEngine
 import ZenoModel.Driver.CodecEngine
 import ZenoModel.Driver.SortEngine
 import ZenoModel.Driver.AuthEngine
@@ -15,7 +17,9 @@ def dispatch (j : Json) : R Json := do
   match (← str j "engine") with
   | "seq" => seqEngine j
   | "store" => storeEngine j
+  | "coalesce" => coalesceEngine j
   | "spec" => specEngine j
+  | "query" => queryEngine j
   | "codec" => codecEngine j
   | "sort" => sortEngine j
   | "auth" => authEngine j
